@@ -1,6 +1,7 @@
 import CLModel.Proto
 import CLModel.History.State
 import CLModel.History.Machine
+import CLModel.History.World
 import CLModel.Ops.C11
 import CLModel.Ops.C14
 namespace Ops.C18
@@ -311,6 +312,108 @@ def opMRun (toks : List String) : String :=
     | none => "bad-args"
     | some ops => " || ".intercalate (runShow { HistM.S.init with ep := ep } ops)
 
+/-! ### round 5: process + file system `HistW` (`c18.wrun`) -/
+
+def showRErr : HistW.RErr → String
+  | .enoent => "enoent" | .eloop => "eloop"
+
+/-- `str(e)` of the OSError `open(<ROOT>/p)` raises -/
+def errMsg (e : HistW.RErr) (p : List Nat) : List Nat :=
+  match e with
+  | .enoent => cps "[Errno 2] No such file or directory: '<ROOT>/" ++ p ++ cps "'"
+  | .eloop => cps "[Errno 40] Too many levels of symbolic links: '<ROOT>/" ++ p ++ cps "'"
+
+def showNode : Option HistW.Node → String
+  | none => "nofile"
+  | some (.file b) => showText b.toList
+  | some (.link t) => ">" ++ showText t
+
+def ltPath : List Nat → List Nat → Bool
+  | [], [] => false
+  | [], _ => true
+  | _, [] => false
+  | a :: as, b :: bs => if a < b then true else if b < a then false else ltPath as bs
+
+def insertFS (x : HistW.Path × HistW.Node) : HistW.FS → HistW.FS
+  | [] => [x]
+  | y :: ys => if ltPath x.1 y.1 then x :: y :: ys else y :: insertFS x ys
+
+/-- every file and link of the world, sorted by path -/
+def showFS (fs : HistW.FS) : String :=
+  ";".intercalate ((fs.foldl (fun acc x => insertFS x acc) []).map (fun x =>
+    match x.2 with
+    | .file b => showText x.1 ++ "=" ++ showText b.toList
+    | .link t => showText x.1 ++ ">" ++ showText t))
+
+def zeroSummary (errors : Nat) : String :=
+  s!"errors={errors} warnings=0 missing=0 missing_w=0 report=0 obsolete=0 changed=0 changed_w=0 unchanged=0 unchanged_w=0 keys=0"
+
+/-- canonical result of one operation of `HistW`; `fs'` = the world afterwards, `top` = the path-free operation it
+    resolved to, `ctxText` as in `showOutM` -/
+def showOutW (op : HistW.Op) (top : Option HistM.Op) (ctxText : Option (Array Nat)) (fs' : HistW.FS) : HistW.Out → String
+  | .fsok => "ok"
+  | .fserr e => showRErr e
+  | .added n w => s!"ok missing={n} missing_w={w}"
+  | .unreadable side p e =>
+    match op with
+    | .compare _ _ _ mg =>
+      "ok ; error " ++ showText (errMsg e p) ++ " ; " ++ zeroSummary (if side == .l10n then 1 else 0) ++
+        (match mg with | some mp => " ;; " ++ showNode (HistW.look fs' mp) | none => "")
+    | .lint .. => "ok ; error 1 1 " ++ showText (errMsg e p)
+    | _ => "noread " ++ showText (errMsg e p)
+  | .m o =>
+    match op, o with
+    | .compare _ _ _ (some mp), .merged r (some (.ok _)) => showReport r ++ " ;; " ++ showNode (HistW.look fs' mp)
+    | _, _ =>
+      match top with
+      | some t => showOutM t ctxText o
+      | none => "?"
+
+def parsePathTok (toks : List String) : Option (List Nat × List String) := Ops.C14.parseTextTok toks
+
+def parseOpW : List String → Option (HistW.Op × List String)
+  | "write" :: p :: t :: rest => do pure (.write (← parseText p) (← parseText t).toArray, rest)
+  | "remove" :: p :: rest => do pure (.remove (← parseText p), rest)
+  | "rename" :: a :: b :: rest => do pure (.rename (← parseText a) (← parseText b), rest)
+  | "copy" :: a :: b :: rest => do pure (.copy (← parseText a) (← parseText b), rest)
+  | "symlink" :: p :: t :: rest => do pure (.symlink (← parseText p) (← parseText t), rest)
+  | "readfile" :: f :: p :: rest => do pure (.readFile (← parseFmt f) (← parseText p), rest)
+  | "wcompare" :: f :: r :: l :: m :: rest => do
+    let mg ← if m == "-" then pure none else (parseText m).map some
+    pure (.compare (← parseFmt f) (← parseText r) (← parseText l) mg, rest)
+  | "wadd" :: f :: r :: rest => do pure (.add (← parseFmt f) (← parseText r), rest)
+  | "wlint" :: f :: c :: r :: rest => do
+    let ref ← if r == "-" then pure none else (parseText r).map some
+    pure (.lint (← parseFmt f) (← parseText c) ref, rest)
+  | toks => (parseOpM toks).map (fun (op, rest) => (.lift op, rest))
+
+def parseOpsW : Nat → List String → Option (List HistW.Op)
+  | _, [] => some []
+  | 0, _ => none
+  | fuel + 1, toks => do
+    let (op, rest) ← parseOpW toks
+    let ops ← parseOpsW fuel rest
+    pure (op :: ops)
+
+def runShowW : HistW.W → List HistW.Op → List String
+  | _, [] => []
+  | w, op :: ops =>
+    let top := HistW.textOp (HistW.look w.fs) op
+    let ctxText : Option (Array Nat) :=
+      match top with
+      | some (.rewalk f) => (w.s.g.pctx f).bind (fun a => (w.s.g.heap[a]?).map (·.contents))
+      | _ => none
+    let r := HistW.step w op
+    (showOutW op top ctxText r.1.fs r.2 ++ s!" @@ j={r.1.s.g.junkid} f={flag r.1.s.incFlag} w=" ++ showFS r.1.fs)
+      :: runShowW r.1 ops
+
+/-- c18.wrun <op>* : a whole history of process + file system through `HistW.step`, from a fresh interpreter on an
+    empty directory; per operation `result @@ junk counter, inc flag, every file of the world`, joined by " || " -/
+def opWRun (toks : List String) : String :=
+  match parseOpsW (toks.length + 1) toks with
+  | none => "bad-args"
+  | some ops => " || ".intercalate (runShowW {} ops)
+
 def ops : List (String × (List String → String)) :=
-  [("c18.run", opRun), ("c18.junkkey", opJunkKey), ("c18.mrun", opMRun)]
+  [("c18.run", opRun), ("c18.junkkey", opJunkKey), ("c18.mrun", opMRun), ("c18.wrun", opWRun)]
 end Ops.C18
